@@ -161,6 +161,7 @@ pub enum Chomp { Strip, Clip, Keep }
 /// line breaks, keep keeps them, clip keeps one).  For content that consists of empty lines only the
 /// crate's reader keeps one line break under clip (observed: "|\n  \n" reads as "\n"); that corner is
 /// written here as the reader behaves, and pinned by the crate's own tests.
+#[verifier::opaque]
 spec fn lit_value(lines: Seq<Seq<char>>, c: Chomp) -> Seq<char> {
     let raw = join_lines(lines);
     match c {
@@ -174,6 +175,7 @@ spec fn chomp_of(t: nat) -> Chomp { if t == 0 { Chomp::Strip } else if t == 1 { 
 spec fn chomp_text(c: Chomp) -> Seq<char> { match c { Chomp::Strip => seq!['-'], Chomp::Clip => Seq::empty(), Chomp::Keep => seq!['+'] } }
 
 /// the lines a literal block scalar must consist of to read back as `v`
+#[verifier::opaque]
 spec fn lit_lines(v: Seq<char>) -> Seq<Seq<char>> {
     let t = trailing_lf(v);
     let content = strip_lf(v);
@@ -181,6 +183,7 @@ spec fn lit_lines(v: Seq<char>) -> Seq<Seq<char>> {
 }
 
 /// the body text: every line preceded by the content indentation and followed by a line feed
+#[verifier::opaque]
 spec fn block_lines_text(ind: Seq<char>, lines: Seq<Seq<char>>) -> Seq<char>
     decreases lines.len()
 {
@@ -289,6 +292,7 @@ proof fn lemma_join_empties(a: Seq<Seq<char>>, k: nat)
 proof fn lemma_literal_reads_back(v: Seq<char>)
     ensures lit_value(lit_lines(v), chomp_of(trailing_lf(v))) =~= v,
 {
+    reveal(lit_lines); reveal(lit_value);
     let t = trailing_lf(v);
     let content = strip_lf(v);
     lemma_trailing_lf_bound(v);
@@ -317,12 +321,13 @@ proof fn lemma_literal_reads_back(v: Seq<char>)
 proof fn lemma_blt_push(ind: Seq<char>, a: Seq<Seq<char>>, l: Seq<char>)
     ensures block_lines_text(ind, a.push(l)) =~= block_lines_text(ind, a) + ind + l + seq!['\n'],
 {
+    reveal_with_fuel(block_lines_text, 2);
     assert(a.push(l).drop_last() =~= a);
 }
 
 proof fn lemma_blt_empty(ind: Seq<char>)
     ensures block_lines_text(ind, Seq::<Seq<char>>::empty()) =~= Seq::<char>::empty(),
-{}
+{ reveal_with_fuel(block_lines_text, 1); }
 
 /// the shapes `lit_lines` takes, spelled the way the emitter builds them
 proof fn lemma_lit_lines_shape(v: Seq<char>)
@@ -333,6 +338,7 @@ proof fn lemma_lit_lines_shape(v: Seq<char>)
         &&& (c.len() > 0 && t < 2 ==> lit_lines(v) =~= split_lines(c))
         &&& (c.len() > 0 && t >= 2 ==> lit_lines(v) =~= split_lines(c) + empties((t - 1) as nat)) }),
 {
+    reveal(lit_lines);
     let t = trailing_lf(v); let c = strip_lf(v);
     let one = Seq::<Seq<char>>::empty().push(Seq::<char>::empty());
     assert(empties(0) =~= Seq::<Seq<char>>::empty());
